@@ -24,7 +24,7 @@ func init() {
 		Assumptions: []string{"keys are valid UTF-8 (JSON object keys)", "bracket spelling uses JSON-style escaping: the quote, backslash, \\b\\f\\n\\r\\t and \\u00XX for other control characters"},
 		Plan: func(tier string, seed int64) *harness.Plan {
 			return &harness.Plan{
-				N:        size(tier, 200000, 3000000),
+				N:        size(tier, 200000, 4000000),
 				Setup:    func(c *harness.Ctx) { hooksOn() },
 				Run:      runC16,
 				Finish:   reportHooks,
